@@ -320,6 +320,8 @@ def check(run):
             run.check(own, 'R5', 'implicit-bind-own-family', fname, f.loc(c),
                       'the endpoint of the implicit bind does not depend on m_is_v4: a socket of one family is bound to a wildcard of the other (an IPv4 socket connects to an IPv6 target instead of failing with address_family_not_supported; an unbound IPv6 UDP socket cannot send at all)',
                       'wildcard chosen by m_is_v4')
+    run.clause('moving a socket transfers the binding: the two socket pointers handed to rebind_socket reach simulation::rebind_socket in their right roles (traced by parameter position)')
+    rebind_argument_roles_rule(run)
     run.clause('a moved socket keeps what the registry relies on (family, binding, forwarder): the move constructors transfer every field (shared with C12)')
     import p12 as _p12
     _p12.move_ctor_rules(run, ((T, 'tcp'), (U, 'udp')))
@@ -428,3 +430,50 @@ def exact_key_rule(run):
                       % (q.render(f, inexact[0])[:60] if inexact else ''), 'selected by find(key) or under it->first == key')
     if n < 3:
         run.broke('fewer than 3 registry iterator dereferences (->second) found in simulation')
+
+
+def rebind_argument_roles_rule(run):
+    """The move constructor hands rebind_socket TWO sockets of the same type: the moved-from object (compared with the
+    registry entry: the owner test) and the new object (stored in the entry). Which is which is fixed only by parameter
+    position, through io_context::rebind_socket to simulation::rebind_socket - so the roles are traced: the argument
+    that ends up in the owner test must be the address of the moved-from parameter, the one that ends up stored must be
+    `this`. A re-ordered parameter list that one caller does not follow compiles silently and never re-points anything."""
+    fx = run.fx
+    sr = fx.fn1(S + '::rebind_socket')
+    ir = fx.fn1(IO + '::rebind_socket')
+    mv = [f for f in fx.fn(T + '::socket') if '&&' in f.sig][0]
+    for f in (sr, ir, mv):
+        run.touch(f)
+    spn = [p.get('name') for p in sr.params]
+    stored = owner = None
+    for n in sr.all_nodes():
+        if n['k'] == 'bin' and n['op'] == '=' and '->second' in q.render(sr, n['lhs']):
+            r_ = q.strip_casts(n['rhs'])
+            if is_node(r_) and r_['k'] == 'ref' and r_.get('dk') == 'param':
+                stored = r_.get('name')
+    for p_ in spn:
+        if any(is_owner_test(sr, a_, p_) is not None for n_ in sr.all_nodes() if n_['k'] == 'if' for a_, _p in q.conjuncts(n_.get('cond'), True)):
+            owner = p_
+    if stored is None or owner is None or stored == owner:
+        run.broke('simulation::rebind_socket: owner-test parameter / stored parameter not identified (%s / %s)' % (owner, stored))
+        return
+    fwd = [c for c in ir.calls() if q.callee_name(c) == S + '::rebind_socket']
+    call = [c for c in mv.calls() if q.callee_name(c) == IO + '::rebind_socket']
+    if not fwd or not call:
+        run.broke('rebind_socket forwarding chain not found')
+        return
+    ipn = [p.get('name') for p in ir.params]
+    role_of_io_param = {}
+    for pos, a_ in enumerate(fwd[0]['args']):
+        a0 = q.strip_casts(a_)
+        if is_node(a0) and a0['k'] == 'ref' and a0.get('dk') == 'param' and pos < len(spn):
+            role_of_io_param[a0.get('name')] = 'owner' if spn[pos] == owner else 'stored' if spn[pos] == stored else None
+    roles = {}
+    for pos, a_ in enumerate(call[0]['args']):
+        if pos < len(ipn) and role_of_io_param.get(ipn[pos]):
+            roles[role_of_io_param[ipn[pos]]] = q.strip_casts(a_)
+    st, ow = roles.get('stored'), roles.get('owner')
+    ok = is_node(st) and q.is_this(st) and is_node(ow) and ow['k'] == 'un' and ow['op'] == '&' and q.strip_casts(ow['e']).get('dk') == 'param'
+    run.check(ok, 'R5', 'rebind-argument-roles', T + '(&&): rebind_socket(%s)' % ', '.join(q.render(mv, a_)[:12] for a_ in call[0]['args']), mv.loc(call[0]),
+              'traced through io_context::rebind_socket into simulation::rebind_socket, the move constructor passes %s as the socket to be STORED in the registry and %s as the previous owner: they are the wrong way round (parameter order and call site disagree), so the owner test fails and a moved bound socket or acceptor is never re-pointed - its endpoint stays registered to the moved-from object'
+              % (q.render(mv, st) if is_node(st) else '?', q.render(mv, ow) if is_node(ow) else '?'), '`this` is stored, the moved-from object is the owner tested')
